@@ -192,3 +192,13 @@ Theorem C06_inplace_covers :
           (inter init_primary_writes init_secondary_writes) = true.
 Proof. exact inplace_covers. Qed.
 Print Assumptions C06_inplace_covers.
+
+(** every explicit TrackSlotId construction outside CoreTrackView's
+    thread->slot map is in the reviewed list (hypothesis [isolated] of
+    [perm_invariance]) with an unchanged number of occurrences *)
+Theorem C06_slot_discipline :
+  (forallb (fun fc => existsb (fun r => String.eqb (fst (fst r)) (fst fc) && String.eqb (snd (fst r)) (snd fc)) slot_ctor_reviewed)
+           slot_ctor_files
+   && forallb (fun r => existsb (fun fc => String.eqb (fst (fst r)) (fst fc)) slot_ctor_files) slot_ctor_reviewed) = true.
+Proof. exact slot_discipline. Qed.
+Print Assumptions C06_slot_discipline.
